@@ -83,8 +83,9 @@ fn parse_args() -> Args {
 fn main() {
     // interpreter / sanitizer tier: tiny workload, no rlimits, no files (runs under Miri)
     if std::env::args().nth(1).as_deref() == Some("sanit") {
-        let seed = std::env::args().nth(2).and_then(|s| s.parse().ok()).unwrap_or(1);
-        std::process::exit(props::sanit::run(seed));
+        let arg = |i: usize, d: u64| std::env::args().nth(i).and_then(|s| s.parse().ok()).unwrap_or(d);
+        panicmon::install();
+        std::process::exit(props::sanit::run(arg(2, 1), arg(3, 0), arg(4, 1), arg(5, 40)));
     }
     // self-test of the per-case CPU watchdog: arm it repeatedly (as consecutive cases do), then
     // spin; the process must be killed by SIGXCPU a few seconds after the LAST arming
